@@ -17,7 +17,7 @@ from ibldsp import utils
 # ------------------------------------------------------------------ all 65536 words
 def words_cases(tier, seed):
     # the whole word space in one vector, then in every chunking of a set of shapes
-    return ["1d-all", "1d-reversed", "2d-col", "2d-row", "int32", "uint16", "chunks-1", "chunks-7", "chunks-256", "single", "twice"]
+    return ["1d-all", "1d-reversed", "2d-col", "2d-row", "int32", "uint16", "chunks-1", "chunks-7", "chunks-256", "single", "twice", "long"]
 
 
 def words_check(kind):
@@ -62,6 +62,14 @@ def words_check(kind):
             one(buf[a:a + 8192], ref[a:a + 8192], "chunk %d after whole-array decodes" % a)
         if not np.array_equal(buf, keep):
             v.append(("split_sync:input-modified", "split_sync changed the words handed to it"))
+    elif kind == "long":
+        # more words in one call than any size constant found in the reader's source (every word several times, in a scrambled order)
+        from mc import thresholds
+        for L in thresholds.beyond(thresholds.mine([spikeglx], 20000, 1_200_000), extra=(131072, 200003), cap=1_300_000):
+            idx = (np.arange(L, dtype=np.int64) * 40503 + 977) % 65536
+            one(signed[idx], ref[idx], "%d words in one call" % L)
+            if v:
+                break
     elif kind == "single":
         for w in range(0, 65536, 1):
             if w % 257 and w not in (1, 2, 32767, 32768, 65535):
@@ -281,6 +289,18 @@ def step_check(case):
         nb = [1.0 if -x > -step else 0.0 for x in t]
         ni, npol = _ref_fronts(nb, 1)
         ok = ok and utils.falls(row, step=step, analog=True).tolist() == [a for a, p in zip(ni, npol) if p > 0]
+        # a bipolar analog line (values -1, 0, 1) with a negative and a positive threshold
+        row2 = row - 1.0
+        for T in (-0.5, 0.5):
+            up = [1.0 if x > T else 0.0 for x in row2]
+            ui, upol = _ref_fronts(up, 1)
+            dn = [1.0 if x < T else 0.0 for x in row2]
+            di, dpol = _ref_fronts(dn, 1)
+            if utils.rises(row2, step=T, analog=True).tolist() != [a for a, p in zip(ui, upol) if p > 0] or \
+                    utils.falls(row2, step=T, analog=True).tolist() != [a for a, p in zip(di, dpol) if p > 0]:
+                ok = False
+                if nbad < 3:
+                    v.append(("fronts:analog:bipolar", "analog trace %r with threshold %r: upward / downward crossings of the threshold are not what rises / falls return" % (row2.tolist(), T)))
         if not ok:
             nbad += 1
             if nbad < 3:
